@@ -208,8 +208,9 @@ def gen_pure_cases(rng, n_each: int, maxlen: int):
     for _ in range(n_each):
         pl.append([[rng.choice(KEYS), rand_op(rng)] for _ in range(rng.randint(0, maxlen))])
     # long lines and many partial writes
-    for n in (2000, 6000):
-        body = ''.join(rng.choice(ASCII + ' ') for _ in range(n))
+    for n in (2000, 60000):
+        body = rand_body(rng, 8) + rng.choice(ASCII) * n + rand_body(rng, 8)
+        n = len(body)
         cuts = sorted(rng.randrange(n) for _ in range(12))
         parts = [body[i:j] for i, j in zip([0] + cuts, cuts + [n])]
         pl.append([[1 + (i % 2), ['write', p]] for i, p in enumerate(parts)] + [[1, ['write', '\n']], [2, ['print', [], None, None]]])
@@ -241,7 +242,29 @@ def ckey(k) -> str:
 
 
 def ctext(s: str) -> str:
-    return '[' + ';'.join(str(ord(c)) for c in s) + ']'
+    """list of code points; long runs of one character as `rp count char`, long literals in chunks
+    (a single very long list literal overflows the stack of coqc)"""
+    import re
+    segs = []
+    pos = 0
+    for m in re.finditer(r'(.)\1{39,}', s, re.S):
+        if m.start() > pos:
+            segs.append(('lit', s[pos:m.start()]))
+        segs.append(('rp', len(m.group(0)), m.group(1)))
+        pos = m.end()
+    if pos < len(s) or not segs:
+        segs.append(('lit', s[pos:]))
+    parts = []
+    for sg in segs:
+        if sg[0] == 'rp':
+            parts.append(f'rp {sg[1]} {ord(sg[2])}')
+        else:
+            t = sg[1]
+            for i in range(0, max(len(t), 1), 1000):
+                parts.append('[' + ';'.join(str(ord(c)) for c in t[i:i + 1000]) + ']')
+    if len(parts) == 1 and parts[0].startswith('['):
+        return parts[0]
+    return '(' + ' ++ '.join(f'({x})' if not x.startswith('[') else x for x in parts) + ')'
 
 
 def ccalls(cs) -> str:
@@ -362,7 +385,7 @@ def make_writer_text(rng, tag: str, cat: str, long_line: int = 0) -> tuple[str, 
         else:
             lines.append(tag + rand_body(rng, 14))
     if long_line:
-        lines[rng.randrange(len(lines))] = tag + ''.join(rng.choice(ASCII + ' ') for _ in range(long_line))
+        lines[rng.randrange(len(lines))] = tag + rand_body(rng, 6) + rng.choice(ASCII) * long_line + rand_body(rng, 6)
     text = ''.join(l + '\n' for l in lines)
     partial = ''
     if cat == 'trailing' or rng.random() < 0.3:
@@ -410,7 +433,7 @@ def make_writer_text(rng, tag: str, cat: str, long_line: int = 0) -> tuple[str, 
             ops.append(['print', [ch], None, ''] if (ch or rng.random() < 0.5) else ['print', [], None, ''])
         elif ch.endswith('\n') and r < 0.6 and cat in ('embedded', 'trailing'):
             ops.append(['print', [ch[:-1]], None, None])       # argument with an embedded newline
-        elif r > 0.93 and cat != 'print':
+        elif r > 0.93 and cat not in ('print', 'trailing'):
             k = rng.randrange(0, len(ch) + 1)
             parts = [ch[:k], ch[k:]]
             if cat == 'linewise' and '\n' in parts[0] and not parts[0].endswith('\n'):
@@ -452,7 +475,7 @@ def gen_program(rng, cat: str, concurrent: bool, long_line: int = 0, trace_threa
     writers = []
 
     def writer(name, kind, traced=True, c=None):
-        text, ops = make_writer_text(rng, name + '|', c or cat, long_line if (long_line and kind != 'main') else 0)
+        text, ops = make_writer_text(rng, name + '|', c or cat, long_line if (long_line and rng.random() < 0.5) else 0)
         w = {'name': name, 'kind': kind, 'traced': traced, 'ops': ops, 'writes': [x for op in ops for x in op_writes(op)]}
         writers.append(w)
         return w
@@ -816,10 +839,8 @@ def run_system(ctx, corr: Corr, progs: list[dict], seen: set, fixed_first: int =
         # model side: per writer
         for w in p['writers']:
             t = obs['trace_of'].get(w['name'])
-            if w['traced'] and t is None:
-                if not any(x.endswith('\n') for x in w['writes']):
-                    continue        # nothing was flushed: the trace is not identifiable and the model agrees (no pieces)
-                t = 999             # the model will report pieces, the implementation reported none
+            if t is None:
+                t = 999             # no piece could be identified as this writer's: the model must report none either
             actor = t if w['traced'] else None
             piece_cases.append((actor, w['writes'], obs['by_trace'].get(t, []) if w['traced'] else []))
             piece_src.append((p, j, w['name']))
